@@ -387,6 +387,7 @@ fn judge_c05(env: &Env, case: &Case, out: &Outcome, injected: Option<u32>, fails
                 }
             }
             rep.class_if(s.signal_joiner, "joiner-interrupted-by-a-signal-while-parked");
+            rep.class_if(s.deep, "closure-uses-256-KiB-of-stack");
             if s.spurious {
                 rep.class_if(sr.woke == 1, "spurious-wake-delivered-to-parked-joiner");
                 rep.class_if(sr.woke == 2, "spurious-wake-found-nobody-parked");
@@ -828,7 +829,7 @@ fn spec_strategy(c06: bool) -> impl Strategy<Value = Spec> {
         (-40_000i64..200_000, prop::bool::weighted(0.12), 200_000u32..1_500_000, prop::bool::weighted(0.10), 1u8..=2, 200_000u32..700_000),
     )
         .prop_map(|(ty, panic, disp, inline, cd, pd, buflen, tag, (jitter, spurious, sp_delay, stall, stall_k, stall_ns))| {
-            let mut s = Spec { ty, panic, disp, inline, child_delay: cd, parent_delay: pd, buflen, tag, spurious: false, stall_ns: 0, stall_k: 0, reuse: false, join_in_print: false, nested: 0, drop_first: false, signal_joiner: false };
+            let mut s = Spec { ty, panic, disp, inline, child_delay: cd, parent_delay: pd, buflen, tag, spurious: false, stall_ns: 0, stall_k: 0, reuse: false, join_in_print: false, nested: 0, drop_first: false, signal_joiner: false, deep: false };
             if spurious && !panic && (disp == DISP_JOIN || disp == DISP_KEEP_END) {
                 // the thread sleeps first so that the joiner is parked when the spurious wake-up arrives
                 s.spurious = true;
@@ -899,7 +900,7 @@ fn fault_case_strategy(builds: Vec<&'static str>) -> impl Strategy<Value = Case>
 }
 
 fn sp(ty: u8, panic: bool, disp: u8, inline: bool, cd: Delay, pd: Delay, buflen: u16, tag: u64) -> Spec {
-    Spec { ty, panic, disp, inline, child_delay: cd, parent_delay: pd, buflen, tag, spurious: false, stall_ns: 0, stall_k: 0, reuse: false, join_in_print: false, nested: 0, drop_first: false, signal_joiner: false }
+    Spec { ty, panic, disp, inline, child_delay: cd, parent_delay: pd, buflen, tag, spurious: false, stall_ns: 0, stall_k: 0, reuse: false, join_in_print: false, nested: 0, drop_first: false, signal_joiner: false, deep: false }
 }
 
 /// The four fixed small batches of the fault enumeration.
@@ -987,6 +988,19 @@ fn signal_batch() -> Batch {
     for (k, ty) in [2u8, 0, 8, 9, 5, 13].into_iter().enumerate() {
         let mut s = sp(ty, false, DISP_JOIN, true, Delay::Sleep(500_000 + 100_000 * k as u32), Delay::None, 32, 0x5c00 + k as u64);
         s.signal_joiner = true;
+        specs.push(s);
+    }
+    Batch { specs }
+}
+
+/// Eight threads live together (joined at the end), each with a frame of 256 KiB on its stack: an eighth of the
+/// 2 MiB that spawn maps per thread today - what a closure with a scratch buffer or a by-value result of that
+/// size needs. The stacks of threads spawned one after the other lie side by side.
+fn deep_batch() -> Batch {
+    let mut specs = Vec::new();
+    for (k, ty) in [2u8, 0, 8, 9, 5, 13, 2, 8].into_iter().enumerate() {
+        let mut s = sp(ty, false, DISP_KEEP_END, false, Delay::Sleep(300_000), Delay::None, 32, 0x5d00 + k as u64);
+        s.deep = true;
         specs.push(s);
     }
     Batch { specs }
@@ -1146,7 +1160,7 @@ pub fn run(ctx: &Ctx) {
     } else if !ctx.is_replay() {
         for (k, build) in builds.iter().enumerate() {
             if k as u32 % ctx.nworkers == ctx.worker {
-                let case = Case { build: build.to_string(), strace: false, fault: None, batches: vec![spurious_batch(), signal_batch(), spurious_batch(), signal_batch()] };
+                let case = Case { build: build.to_string(), strace: false, fault: None, batches: vec![spurious_batch(), signal_batch(), deep_batch(), spurious_batch(), signal_batch()] };
                 if !ctx.run_one("spurious", &case, || run_case(&env, &case)) {
                     break;
                 }
